@@ -279,11 +279,11 @@ pub fn run(ctx: &mut Ctx) {
     ];
     let ctx = &*ctx;
     let knobs = SysKnobs::default();
-    ctx.cases("lockstep", ctx.n(400, 20000), 0, |case| {
+    ctx.cases("lockstep", ctx.n(2500, 40000), 0, |case| {
         lockstep_case(case, "C06", &knobs, 4, 60, 150);
     });
     let four = SysKnobs { max_actors: 4, ..SysKnobs::default() };
-    ctx.cases("lockstep_four_actors", ctx.n(100, 5000), 0, |case| {
+    ctx.cases("lockstep_four_actors", ctx.n(600, 10000), 0, |case| {
         lockstep_case(case, "C06", &four, 3, 80, 100);
     });
 }
